@@ -260,6 +260,9 @@ def case_xtrace(ctx, inp):
     except RuntimeError as e:
         ctx.fail("optimizer does not converge", observed=str(e)[:300])
         return
+    except Exception as e:
+        ctx.fail(f"simplify_once raised {type(e).__name__} on a well-formed program", observed=f"{type(e).__name__}: {e}"[:300])
+        return
     sc = [[str(c) for c in f.columns] for f in frames]
     sl = [len(f) for f in frames]
     models = []
@@ -269,6 +272,9 @@ def case_xtrace(ctx, inp):
         except Unmodelled as u:
             models.append(None)
             ctx.note("xunmodelled:" + str(u))
+        except Exception as ex:        # e.g. KeyError from `.columns` of an expression the optimizer broke
+            ctx.fail(f"an expression of the simplify trace cannot be inspected ({type(ex).__name__})", observed=f"{type(ex).__name__}: {ex}"[:300])
+            return
     core = inp.get("klass") == "core"
     # (1) consecutive translatable pairs -> the proved checker
     for i in range(len(trace) - 1):
@@ -308,10 +314,17 @@ def case_xtrace(ctx, inp):
         # (3) static schema vs the real `.columns`
         for which in (0, -1):
             m, e = models[which], trace[which]
-            if m is None or getattr(e, "ndim", 0) != 2:
+            if m is None:
                 continue
+            try:
+                if getattr(e, "ndim", 0) != 2:
+                    continue
+                real_cols = [str(c) for c in e.columns]
+            except Exception as ex:
+                ctx.fail(f"`.columns` of a trace expression raised {type(ex).__name__}", observed=f"{type(ex).__name__}: {ex}"[:300])
+                return
             got = sexp_to_py(ctx.lean(Sym("schema2"), sc, m))
-            ctx.eq("schema2 vs .columns", got, [str(c) for c in e.columns])
+            ctx.eq("schema2 vs .columns", got, real_cols)
     # (4) the real result (optimised) vs pandas
     try:
         got = coll.compute(scheduler="sync")
@@ -402,7 +415,7 @@ def case_xfn(ctx, inp):
             return
         model = sexp_to_py(ctx.lean(Sym("lendown"), a))
         if out is None or out is e or (hasattr(out, "_name") and out._name == e._name):
-            ctx.eq("Len._simplify_down returns None", model, "none")
+            ctx.eq("Len._simplify_down returns None", "none" if model is None else model, "none")
             ctx.branch("xfn-len-none")
             return
         try:
@@ -611,7 +624,7 @@ CASES = {"xtrace": case_xtrace, "xfn": case_xfn}
 
 def generate(ctx):
     rng = ctx.rng
-    for _ in range(ctx.n(90, 1500)):
+    for _ in range(ctx.n(110, 1500)):
         yield "xfn", gen_xfn(rng)
-    for _ in range(ctx.n(70, 1200)):
+    for _ in range(ctx.n(100, 1200)):
         yield "xtrace", gen_xprog(rng)
